@@ -30,7 +30,7 @@ META = {
         "C14.named_extraction",
         "C14.is_aligned.true",
         "C14.is_aligned.false",
-        "C14.quiescent.inv",
+        "C14.quiescent.inv", "C14.subregions_are_own_objects",
         "inv.mesh.subregions",
     ],
     "owns": ["inv.mesh", "inv.mesh.subregions"],
@@ -178,6 +178,51 @@ def accept_reject(ctx):
         ctx.expect_raises("C14.malformed_rejected", assign, mesh, val, unchanged=[mesh],
                           what={"value": repr(val)[:80]})
     quiescent(ctx, mesh, "after rejections")
+    shared_regions(ctx, spec, boxes)
+
+
+def shared_regions(ctx, spec, boxes):
+    """History: the same Region objects are handed to two meshes (``Mesh(...,
+    subregions=other.subregions)`` is the usual way to give a finer mesh the subregions of
+    a coarser one), then one mesh - or the caller's own Region object - is moved in place.
+    Every mesh holds subregions of its own: the other mesh still has its subregions where
+    they were, inside its region and on its lattice."""
+    rng = ctx.rng
+    if not boxes:
+        return
+    # Regions that already carry the mesh's names, units and tolerance (nothing to convert)
+    tmpl = spec.region()
+    mine = {k: df.Region(p1=spec.vertex(lo).tolist(), p2=spec.vertex(hi).tolist(),
+                         dims=tmpl.dims, units=tmpl.units, tolerance_factor=tmpl.tolerance_factor)
+            for k, (lo, hi) in boxes.items()}
+    a = spec.mesh(subregions=mine)
+    second_from = gen.pick(rng, ["callers_regions", "first_mesh"])
+    n2 = [int(k) * int(rng.integers(1, 3)) for k in spec.n]  # same region, same or finer cells
+    b = df.Mesh(region=spec.region(), n=n2, subregions=mine if second_from == "callers_regions"
+                else a.subregions)
+    da, db = core.mesh_digest(a), core.mesh_digest(b)
+    moved = gen.pick(rng, ["second_mesh", "first_mesh", "callers_region"])
+    v = (rng.integers(1, 4, spec.nd) * spec.cell).tolist()
+    if moved == "second_mesh":
+        b.translate(v, inplace=True)
+    elif moved == "first_mesh":
+        k = gen.pick(rng, ["translate", "scale"])
+        if k == "translate":
+            a.translate(v, inplace=True)
+        else:
+            a.scale(2.0, reference_point=spec.pmin.tolist(), inplace=True)
+    else:
+        next(iter(mine.values())).translate(v, inplace=True)
+    info = {"second_mesh_got_regions_from": second_from, "moved_in_place": moved,
+            "spec": spec.describe(), "boxes": {k: (lo, hi) for k, (lo, hi) in boxes.items()}}
+    if moved != "first_mesh":
+        ctx.check("C14.subregions_are_own_objects", core.mesh_digest(a) == da,
+                  mesh="first", **info)
+        quiescent(ctx, a, "shared regions: first mesh")
+    if moved != "second_mesh":
+        ctx.check("C14.subregions_are_own_objects", core.mesh_digest(b) == db,
+                  mesh="second", **info)
+        quiescent(ctx, b, "shared regions: second mesh")
 
 
 # ---------------------------------------------------------------- 1 transformations
